@@ -110,7 +110,7 @@ func (env *SpecEnv) eval(x ast.Expr) (Val, types.Type, error) {
 			return Val{T: not(v.T)}, tBool, nil
 		case token.SUB:
 			if isFloat(t) {
-				return Val{T: "(fp.neg " + v.T + ")"}, t, nil
+				return Val{T: e.fop("neg", v.T)}, t, nil
 			}
 			return Val{T: "(- " + v.T + ")"}, t, nil
 		case token.ADD:
@@ -470,7 +470,7 @@ func (env *SpecEnv) evalBinary(n *ast.BinaryExpr) (Val, types.Type, error) {
 		var r string
 		switch {
 		case fl:
-			r = fmt.Sprintf("(fp.eq %s %s)", a.T, b.T)
+			r = env.e.fop("eq", a.T, b.T)
 		case isString(t):
 			r = env.e.strEq(a.T, b.T)
 		default:
@@ -503,21 +503,22 @@ func (env *SpecEnv) evalBinary(n *ast.BinaryExpr) (Val, types.Type, error) {
 		}
 		return Val{T: r}, tBool, nil
 	case token.LSS, token.LEQ, token.GTR, token.GEQ:
-		op := map[token.Token]string{token.LSS: "<", token.LEQ: "<=", token.GTR: ">", token.GEQ: ">="}[n.Op]
 		if fl {
-			op = map[token.Token]string{token.LSS: "fp.lt", token.LEQ: "fp.leq", token.GTR: "fp.gt", token.GEQ: "fp.geq"}[n.Op]
+			op := map[token.Token]string{token.LSS: "lt", token.LEQ: "leq", token.GTR: "gt", token.GEQ: "geq"}[n.Op]
+			return Val{T: env.e.fop(op, a.T, b.T)}, tBool, nil
 		}
+		op := map[token.Token]string{token.LSS: "<", token.LEQ: "<=", token.GTR: ">", token.GEQ: ">="}[n.Op]
 		return Val{T: fmt.Sprintf("(%s %s %s)", op, a.T, b.T)}, tBool, nil
 	case token.ADD, token.SUB, token.MUL:
 		if fl {
-			op := map[token.Token]string{token.ADD: "fp.add", token.SUB: "fp.sub", token.MUL: "fp.mul"}[n.Op]
-			return Val{T: fmt.Sprintf("(%s RNE %s %s)", op, a.T, b.T)}, t, nil
+			op := map[token.Token]string{token.ADD: "add", token.SUB: "sub", token.MUL: "mul"}[n.Op]
+			return Val{T: env.e.fop(op, a.T, b.T)}, t, nil
 		}
 		op := map[token.Token]string{token.ADD: "+", token.SUB: "-", token.MUL: "*"}[n.Op]
 		return Val{T: fmt.Sprintf("(%s %s %s)", op, a.T, b.T)}, t, nil
 	case token.QUO:
 		if fl {
-			return Val{T: fmt.Sprintf("(fp.div RNE %s %s)", a.T, b.T)}, t, nil
+			return Val{T: env.e.fop("div", a.T, b.T)}, t, nil
 		}
 		return Val{T: fmt.Sprintf("(godiv %s %s)", a.T, b.T)}, t, nil
 	case token.REM:
@@ -817,6 +818,17 @@ func (env *SpecEnv) evalCall(n *ast.CallExpr) (Val, types.Type, error) {
 			parts = append(parts, fmt.Sprintf("(= (select %s (+ (sl_off %s) %d)) %d)", arr, a.T, i, str[i]))
 		}
 		return Val{T: and(parts...)}, tBool, nil
+	case "same":
+		// same(a, b): identical values (for floats: the same float64, not IEEE ==)
+		a, _, err := argv(0)
+		if err != nil {
+			return Val{}, nil, err
+		}
+		b, _, err := argv(1)
+		if err != nil {
+			return Val{}, nil, err
+		}
+		return Val{T: fmt.Sprintf("(= %s %s)", a.T, b.T)}, tBool, nil
 	case "sameslice":
 		a, _, err := argv(0)
 		if err != nil {
@@ -929,9 +941,9 @@ func (env *SpecEnv) evalConversion(tx ast.Expr, arg ast.Expr) (Val, types.Type, 
 	}
 	switch {
 	case isFloat(t) && isIntType(vt):
-		return Val{T: fmt.Sprintf("((_ to_fp 11 53) RNE (to_real %s))", v.T)}, t, nil
+		return Val{T: env.e.fop("i2f", v.T)}, t, nil
 	case isIntType(t) && isFloat(vt):
-		return Val{T: fmt.Sprintf("(to_int (fp.to_real (fp.roundToIntegral RTZ %s)))", v.T)}, t, nil
+		return Val{T: env.e.fop("f2i", v.T)}, t, nil
 	}
 	return Val{T: v.T}, t, nil
 }
